@@ -1971,6 +1971,10 @@ def correspond(run: Run):
         asts = f[2]
         sig = ('F', asts[:-1], asts[-1])
         pairs.append((G.variant(sig), sig))
+    # maps / arrays against function tests whose return type ends in a nested type's indicator (+ restriction pairs)
+    nested_cases, nested_pairs = container_vs_function_tests(W, G, rng, run.scale(150, 2500))
+    pairs += nested_pairs
+    run.stats.count('nested-tail-return-type:judgements', len(nested_cases))
     for i in range(0, len(pairs), 5000):
         restr_cases(run, pairs[i:i + 5000])
     # --- judgements
@@ -1988,7 +1992,7 @@ def correspond(run: Run):
         if c:
             ty = prefixify(ty, CFGS[c][1], rng)
         cases.append((ty, v, x, c))
-    cases = fixed_judgements(W) + namespace_judgements(W) + cases
+    cases = fixed_judgements(W) + namespace_judgements(W) + nested_cases + cases
     for i in range(0, len(cases), 4000):
         judge_cases(run, W, cases[i:i + 4000])
     matrix_cases(run, W)
@@ -2010,6 +2014,64 @@ def correspond(run: Run):
                       'function items with declared signatures, maps, arrays, xsd version) checked through '
                       'match_sequence_type, instance of, treat as; restriction = pair of types through '
                       'is_sequence_type_restriction; distinct = distinct (canonical type text, value tokens) or type pairs')
+
+
+def nested_tail_type(G: TyGen, rng, depth=0):
+    """a type whose LAST characters are an occurrence indicator (or a parenthesis) that belongs to a NESTED type: a typed
+    function test `function(A) as T?` (the `?` is T's), array / map tests with inner indicators, with and without an
+    indicator of their own — the texts on which "does R admit the empty sequence" cannot be read off the last character"""
+    inner = G.simple_ty(1)
+    if inner[0] == 'L':
+        inner = ('L', inner[1], rng.choice('?*?*+1'))
+    r = rng.random()
+    if r < 0.45:
+        args = [G.simple_ty(1) for _ in range(rng.choice([0, 1, 1, 2]))]
+        ret = inner if depth or rng.random() < 0.7 else nested_tail_type(G, rng, 1)
+        return ('F', args, ret)
+    if r < 0.65:
+        return ('A', inner, rng.choice('1?*+1'))
+    if r < 0.85:
+        return ('M', G.atom(), inner, rng.choice('1?*+1'))
+    return inner
+
+
+def container_vs_function_tests(W: World, G: TyGen, rng, n):
+    """maps and arrays (empty ones, random ones, and ones whose every value is a function item of exactly the asked
+    signature) against `function(K) as R` with R from `nested_tail_type`: a map is an instance only if R admits the empty
+    sequence of a missing key (XPath 3.1 §2.5.6.2; model `matchSt`, map branch: `matchSt r []`), which for a typed
+    function test R is never the case, whatever its text ends with; an array has no missing member."""
+    L = live()
+    ix = L.atom_names.index
+    ctx = W.XPathContext(W.root1)
+    empty_map = (W.P.parse('map{}').evaluate(ctx), 'm 0')
+    empty_arr = (W.P.parse('[]').evaluate(ctx), 'r 0')
+    ci = L.val_cls.index(int)
+    keys = [ix('xs:integer'), ix('xs:anyAtomicType'), ix('xs:string'), ix('xs:int'), ix('xs:decimal')]
+    cases, pairs = [], []
+    for k in range(n):
+        R = nested_tail_type(G, rng)
+        K = ('L', ('a', rng.choice(keys) if rng.random() < 0.85 else G.atom()), '1')
+        ty = ('F', [K], R)
+        values = [empty_map, empty_arr]
+        if R[0] == 'F' and W.add_inline(R[1], R[2]):
+            f, ftok, _ = W.funcs[-1]
+            try:
+                m = W.P.parse('map{1: $f, 2: $f}').evaluate(W.XPathContext(W.root1, variables={'f': f}))
+                a = W.P.parse('[$f, $f]').evaluate(W.XPathContext(W.root1, variables={'f': f}))
+                values += [(m, f'm 2 {ci} 1 {ftok} {ci} 1 {ftok}'), (a, f'r 2 1 {ftok} 1 {ftok}')]
+            except Exception:
+                pass
+        for _ in range(2):
+            v = W.gen_map(1) if rng.random() < 0.5 else W.gen_array(1)
+            if v[1][0] in 'mr':
+                values.append(v)
+        x = 1 if mentions(ty, set(L.xsd11_only)) else 0
+        for item, t in values:
+            cases.append((ty, ([item], '1 ' + t), x))
+        # the same types as restriction queries: a map / array test (or the function test itself) as candidate
+        V = R if rng.random() < 0.6 else G.variant(R)
+        pairs += [(ty, ('M', K[1][1], V, '1')), (ty, ('A', V, '1')), (ty, ('F', [K], V)), (('F', [K], V), ty)]
+    return cases, pairs
 
 
 def prefixify(ty, cfg, rng):
